@@ -2,6 +2,7 @@
     Definitions only (the keys themselves are in Model/Cache.v: [key], [key_eqb] = the derived [PartialEq] / [Hash]
     of [UriKey] and [PathQuery], [path_query] = [PathQuery::from(&Uri)], [key_pq], [key_p]). *)
 From KV Require Export Cache.
+From KV Require Import PathSan.
 Open Scope N_scope.
 
 (** The query as far as the cache (and the handler contract) can tell: [PathQuery] stores path and query
@@ -24,3 +25,13 @@ Definition key_eqb_string_only (a c : key) : bool :=
   end.
 
 Definition rq_get (path : bytes) (q : option bytes) : request := mkReq M_GET path q [] 1.
+
+(** The key is made from the RAW path of the URI ([Uri::path], [rq_path]), not from the percent-decoded one: kvarn
+    routes on the raw path ([Extensions::resolve_prepare] looks the Prepare extension up with [request.uri().path()],
+    the rule sets and the content type guessed from the extension see the raw path too), so "/page" and "/p%61ge" are
+    different requests and must have different keys.  The key comparison of the seeded change C03-6 ([PathQuery::from]
+    stores [utils::percent_decode(uri.path())]): used by the witness that decoding the path merges such requests. *)
+Definition decode_path (r : request) : request :=
+  mkReq (rq_method r) (util_percent_decode (rq_path r)) (rq_query r) (rq_headers r) (rq_addr r).
+Definition key_pq_decoded (r : request) : key := key_pq (decode_path r).
+Definition key_p_decoded (r : request) : key := key_p (decode_path r).
